@@ -40,6 +40,9 @@ def cases(draw):
             # thousands of rows (long sequences x batch): sizes beyond any plausible blocking threshold, not multiples of it
             c["batch"] = draw(st.sampled_from([[1030], [1500], [3, 700], [2, 23, 29], [2050], [4100]]))
             c["hp"]["i"] = min(c["hp"]["i"], 16)
+        elif c["batch"] and c["scales"] == "ones" and c["input"] == "float" and draw(st.integers(0, 2)) == 0:
+            # an EMPTY batch (a mixture-of-experts expert that received no token): every gradient is defined, and null
+            c["batch"][draw(st.integers(0, len(c["batch"]) - 1))] = 0
     else:
         c["hp"] = draw(M.conv_hparams())
         c["hw"] = draw(st.integers(3, 7))
@@ -160,7 +163,7 @@ def _exec_case(case):
     gO = (torch.randn(tuple(y.shape), generator=g) * case.get("gscale", 1.0)).to(dtype)
     if case["glayout"] == "permuted":
         gO = _perm(gO)
-    elif case["glayout"] == "expanded" and gO.ndim >= 2:
+    elif case["glayout"] == "expanded" and gO.ndim >= 2 and gO.numel() > 0:
         gO = gO.select(0, 0).unsqueeze(0).expand(gO.shape)
     for p in model.parameters():
         p.grad = None
